@@ -311,6 +311,44 @@ func c15ParamSource(fn *ssa.Function, v ssa.Value) (string, bool) {
 	return "", false
 }
 
+// c15MapIsLabelsField: the map updated by mu is the one the Labels field holds when the method
+// returns. Either the map was loaded from the field (updated in place), or the updated map value —
+// whatever it is: the old map, a fresh one, a merge of both — is unconditionally stored into the
+// field (`m := a.Labels; if m == nil { m = map…{} }; m[k] = v; a.Labels = m`; maps are references,
+// so the order of the store and the update does not matter). In both cases no store of a different
+// value into the field may follow.
+func c15MapIsLabelsField(p *Program, fn *ssa.Function, mu *ssa.MapUpdate) bool {
+	var stores []*ssa.Store
+	for _, b := range fn.Blocks {
+		for _, in := range b.Instrs {
+			if st, ok := in.(*ssa.Store); ok && strings.HasSuffix(c15FieldPath(st.Addr), "Labels") {
+				stores = append(stores, st)
+			}
+		}
+	}
+	overwrittenAfter := func(site ssa.Instruction) bool {
+		for _, in := range reachableAfter(site, nil) {
+			if st, ok := in.(*ssa.Store); ok && st.Val != mu.Map {
+				for _, s := range stores {
+					if s == st {
+						return true
+					}
+				}
+			}
+		}
+		return false
+	}
+	if strings.HasSuffix(c15LoadPath(mu.Map), "Labels") {
+		return !overwrittenAfter(mu)
+	}
+	for _, st := range stores {
+		if st.Val == mu.Map && p.c09Unconditional(st) && !overwrittenAfter(st) && !overwrittenAfter(mu) {
+			return true
+		}
+	}
+	return false
+}
+
 func c15AdapterSiblings(c *Ctx) {
 	p := c.P
 	classLabel := ""
@@ -414,7 +452,7 @@ func c15AdapterSiblings(c *Ctx) {
 					k, isConst := mu.Key.(*ssa.Const)
 					src, okSrc := c15ParamSource(fn, mu.Value)
 					if isConst && k.Value != nil && k.Value.ExactString() == classLabel && okSrc && src == ".Class" &&
-						strings.HasSuffix(c15LoadPath(mu.Map), "Labels") && p.c09Unconditional(in) {
+						c15MapIsLabelsField(p, fn, mu) && p.c09Unconditional(in) {
 						found = true
 					}
 				}
@@ -652,8 +690,10 @@ func c15r3(c *Ctx) {
 		}
 		return false
 	}
-	current := func(P ssa.Value) (bool, string) {
-		for _, v := range p.possibleValues(P) {
+	current := func(P ssa.Value, fs []Fact) (bool, string) {
+		// under the facts of the judged return: the phase object of a merged get-or-create helper
+		// is phi(nil, nil, X) next to its error phi(E1, E2, nil); past `err != nil → return` it is X
+		for _, v := range p.pfPossibleValuesUnder(P, fs) {
 			if p.sameValue(v, a.desired) {
 				continue // the object just created
 			}
@@ -701,7 +741,7 @@ func c15r3(c *Ctx) {
 			continue
 		}
 		P = p.mwThroughParam(P) // inside an extracted helper the phase object is the argument passed to it
-		if ok, why := current(P); !ok {
+		if ok, why := current(P, rc.Facts); !ok {
 			o.Fail("status is not taken from the current phase object: %s", why)
 			continue
 		}
